@@ -216,6 +216,34 @@ def h_step_forward_tsn(ctx, layout):
         ctx.observe("got", got["r"])
 
 
+def h_step_sack_abandon(ctx, q, ngaps):
+    """Sender: one SACK (symbolic cumulative point / gap blocks, miss counters symbolic) while the q
+    fragments of one maxRetransmits=0 message are in flight: a third strike abandons the message.
+    Flight-size accounting, timer and queue invariants of C02 must survive, and the message is
+    abandoned as a whole or not at all."""
+    from .c02_drain import _check_inv, _sym_sender
+
+    with Env(crc=_crc()) as env:
+        t, base, chunks, sentlog = _sym_sender(ctx, env, q, 0, pr=True)
+        env.channel(t, id=3, maxRetransmits=0)
+        _check_inv(ctx, t, "pre")
+        s = sctp.SackChunk()
+        adv = ctx.int("cum_advance", -1, q + 1)
+        s.cumulative_tsn = (base - 1 + adv) & U32
+        s.advertised_rwnd = 131072
+        s.gaps = [(ctx.int("gap%d_start" % g, 1, q + 2), ctx.int("gap%d_end" % g, 1, q + 2)) for g in range(ngaps)]
+        sx.run(t._receive_sack_chunk(s))
+        env.drain()
+        ctx.reach("sack-over-pr-message-processed")
+        _check_inv(ctx, t, "post")
+        left = [c for c in chunks if any(c is x for x in t._sent_queue)]
+        if left:
+            ab = [c._abandoned for c in left]
+            ctx.check(sx.Or(sx.And(*ab), sx.Not(sx.Or(*ab))), "message-abandoned-as-a-whole-or-not-at-all")
+        ctx.observe("flight", t._flight_size)
+        ctx.observe("left", len(left))
+
+
 def h_step_forward_held(ctx, held):
     """Receiver, ordered PR stream: message s0 is lost and abandoned, `held` later messages were
     received and are waiting behind it when the FORWARD-TSN arrives; afterwards the sender's next
@@ -358,6 +386,7 @@ STUBS = [
 HARNESSES = {
     "bmc": Harness("bmc", h_bmc, _bmc_jobs, style="BMC", bounds="2 channels (reliable ordered + partially reliable: maxRetransmits 0/1 or lifetime, ordered/unordered); <=3 messages of <=2 (3) fragments; cwnd of 1, 2 or 8 fragments; 3 (quick) / 4 solver-chosen events; then a loss-free suffix and one fresh message per channel", encoded=ENC, stubs=STUBS, twin="suffix-done", opts={"samples": 1}),
     "step-forward-tsn": Harness("step-forward-tsn", h_step_forward_tsn, _fwd_layouts, style="STEP", bounds="4 (quick) / 6 interleavings of reliable and abandoned PR fragments over consecutive TSNs with symbolic origin; which reliable fragments arrived before the FORWARD-TSN is solver-chosen", encoded=ENC, stubs=STUBS, twin="forward-tsn-processed"),
+    "step-sack-abandon": Harness("step-sack-abandon", h_step_sack_abandon, lambda tier: [{"q": q, "ngaps": g} for q in ((2, 3) if tier == "quick" else (2, 3, 4)) for g in (1, 2) if not (tier == "quick" and q == 3 and g == 2)], style="STEP", bounds="one maxRetransmits=0 message of 2..3 (4) fragments in flight with symbolic sizes, miss counters and gap-ack flags; one SACK with symbolic cumulative point and <=2 gap blocks; TSN origin symbolic", encoded=ENC, stubs=STUBS, twin="sack-over-pr-message-processed", opts={"samples": 1}),
     "step-forward-held": Harness("step-forward-held", h_step_forward_held, lambda tier: [{"held": h} for h in ((0, 1) if tier == "quick" else (0, 1, 2))], style="STEP", bounds="ordered PR stream at a symbolic 16-bit sequence origin and 32-bit TSN origin: one lost message, 0..1 (quick) / 0..2 received messages held behind it, FORWARD-TSN over all of them, then the next two messages in swapped order", encoded=ENC, stubs=STUBS, twin="forward-tsn-over-held-processed", opts={"samples": 1}),
     "step-abandon": Harness("step-abandon", h_step_abandon, lambda tier: [{"nfrag": n, "nsent": s, "pos": 0} for n in (2, 3) for s in range(1, n + 1)], style="STEP", bounds="PR message of 2..3 fragments of which 1..n are in flight when T3 abandons it; TSN origin symbolic", encoded=ENC, stubs=STUBS, twin="abandoned"),
 }
